@@ -6,6 +6,7 @@ MODULES = [
     'contracts.taskdata',
     'contracts.taskfuncs',
     'contracts.datacls',
+    'contracts.parallel',
 ]
 
 
